@@ -16,15 +16,28 @@ package socks5
 //@   ensures result >= 5 && result <= 259
 //@   ensures addr.IsDomain() ==> result == 4 + len(addr.Domain())
 
+// The SOCKS5 address format (RFC 1928 section 5) as a relation between the first bytes of b and an address
+// (property C07: the address a server extracts is the one the client wrote). A domain is compared by length
+// and character by character; an IP address by its 4 or 16 bytes; the port is big-endian.
+//@ pure be16w(b []byte, i int) uint16 = uint16(b[i]) << 8 | uint16(b[i + 1])
+//@ pure domainEnc(b []byte, d string, port uint16) bool = len(d) >= 1 && len(d) <= 255 && len(b) >= 4 + len(d) && b[0] == 3 && int(b[1]) == len(d) && (forall i int :: 0 <= i && i < len(d) ==> b[2 + i] == d[i]) && be16w(b, 2 + len(d)) == port
+//@ pure ip4Enc(b []byte, ip netip.Addr, port uint16) bool = len(b) >= 7 && b[0] == 1 && b[1] == ip.As4()[0] && b[2] == ip.As4()[1] && b[3] == ip.As4()[2] && b[4] == ip.As4()[3] && be16w(b, 5) == port
+//@ pure ip6Enc(b []byte, ip netip.Addr, port uint16) bool = len(b) >= 19 && b[0] == 4 && (forall i int :: 0 <= i && i < 16 ==> b[1 + i] == ip.As16()[i]) && be16w(b, 17) == port
+
 //@ func WriteAddrFromAddrPort
 //@   requires len(b) >= LengthOfAddrFromAddrPort(addrPort)
 //@   modifies b[0:LengthOfAddrFromAddrPort(addrPort)]
 //@   ensures n == LengthOfAddrFromAddrPort(addrPort)
+//@   ensures (addrPort.Addr().Is4() || addrPort.Addr().Is4In6()) ==> ip4Enc(b, addrPort.Addr(), addrPort.Port())
+//@   ensures !(addrPort.Addr().Is4() || addrPort.Addr().Is4In6()) ==> ip6Enc(b, addrPort.Addr(), addrPort.Port())
 
 //@ func WriteAddrFromConnAddr
 //@   requires conn.AddrWF(addr) && len(b) >= LengthOfAddrFromConnAddr(addr)
 //@   modifies b[0:LengthOfAddrFromConnAddr(addr)]
 //@   ensures result == LengthOfAddrFromConnAddr(addr)
+//@   ensures addr.IsDomain() ==> domainEnc(b, addr.Domain(), addr.Port())
+//@   ensures addr.IsIP() && (addr.IP().Is4() || addr.IP().Is4In6()) ==> ip4Enc(b, addr.IP(), addr.Port())
+//@   ensures addr.IsIP() && !(addr.IP().Is4() || addr.IP().Is4In6()) ==> ip6Enc(b, addr.IP(), addr.Port())
 
 //@ func AppendAddrFromConnAddr
 //@   requires conn.AddrWF(addr)
@@ -37,14 +50,30 @@ package socks5
 
 //@ func ConnAddrFromSlice
 //@   modifies nothing
+//@   ensures isnil(result2) && result0.IsDomain() ==> domainEnc(b, result0.Domain(), result0.Port()) && result1 == 4 + len(result0.Domain())
+//@   ensures isnil(result2) && result0.IsIP() && b[0] == 1 ==> ip4Enc(b, result0.IP(), result0.Port()) && result1 == 7
+//@   ensures isnil(result2) && result0.IsIP() && b[0] == 4 ==> ip6Enc(b, result0.IP(), result0.Port()) && result1 == 19
+//@   ensures isnil(result2) ==> (result0.IsDomain() <==> b[0] == 3) && (result0.IsIP() <==> (b[0] == 1 || b[0] == 4))
 //@   ensures isnil(result2) ==> conn.AddrWF(result0) && result0.IsValid() && result1 >= 5 && result1 <= 259 && result1 <= len(b)
 //@   ensures isnil(result2) ==> result1 >= LengthOfAddrFromConnAddr(result0)
 
+// The request a client writes: VER 5, the command, RSV 0, then the target in the address format.
 //@ func clientDoRequest
 //@   requires len(b) >= 3 + MaxAddrLen && conn.AddrWF(targetAddr)
+//@   callsite Write: arg0[0] == 5 && arg0[1] == command && arg0[2] == 0 && len(arg0) == 3 + LengthOfAddrFromConnAddr(targetAddr)
+//@   callsite Write: targetAddr.IsDomain() ==> domainEnc(arg0[3:], targetAddr.Domain(), targetAddr.Port())
+//@   callsite Write: targetAddr.IsIP() && (targetAddr.IP().Is4() || targetAddr.IP().Is4In6()) ==> ip4Enc(arg0[3:], targetAddr.IP(), targetAddr.Port())
+//@   callsite Write: targetAddr.IsIP() && !(targetAddr.IP().Is4() || targetAddr.IP().Is4In6()) ==> ip6Enc(arg0[3:], targetAddr.IP(), targetAddr.Port())
+//@   ensures isnil(err) ==> b[0] == 5 && b[1] == 0
 
+// What a server extracts: the address is decoded from the bytes it read after VER CMD RSV; a connection is
+// only handed on for CONNECT (command 1) on a TCP-enabled server, anything else is answered "command not supported".
 //@ func serverHandleRequest
 //@   requires len(b) >= 3 + MaxAddrLen
+//@   ensures isnil(err) ==> b[0] == 5 && b[1] == 1 && enableTCP && !isnil(pc)
+//@   ensures isnil(err) && addr.IsDomain() ==> domainEnc(sa, addr.Domain(), addr.Port())
+//@   ensures isnil(err) && addr.IsIP() ==> (sa[0] == 1 ==> ip4Enc(sa, addr.IP(), addr.Port())) && (sa[0] == 4 ==> ip6Enc(sa, addr.IP(), addr.Port()))
+//@   callsite replyWithStatus: arg2 == 7
 
 // The domain cache is nil or a well-formed cache: its map exists and every entry's node carries its own key.
 //@ pure dcWF(c *DomainCache) bool = isnil(c.handleByDomain) || (!isnil(c.handleByDomain.nodeByKey) && (forall k string :: has(c.handleByDomain.nodeByKey, k) ==> !isnil(c.handleByDomain.nodeByKey[k]) && c.handleByDomain.nodeByKey[k].Entry.Key == k))
@@ -64,8 +93,10 @@ package socks5
 //@   requires len(b) >= 3
 //@   modifies nothing
 
+// A reply carries the status and the unspecified IPv4 bound address.
 //@ func replyWithStatus
 //@   requires len(b) >= 3 + IPv4AddrLen
+//@   callsite Write: len(arg0) == 10 && arg0[0] == 5 && arg0[1] == status && arg0[2] == 0 && arg0[3] == 1 && arg0[4] == 0 && arg0[5] == 0 && arg0[6] == 0 && arg0[7] == 0 && arg0[8] == 0 && arg0[9] == 0
 
 //@ func clientNegotiateAuthMethod
 //@   requires len(b) >= 3
@@ -76,8 +107,51 @@ package socks5
 //@ func serverHandleMethodSelection
 //@   requires len(b) >= 257
 
+// Username/password gate (RFC 1929): success is answered, and a username returned, only when the presented
+// name is a configured user and the presented password is that user's password; the status byte sent is 0
+// exactly then.
 //@ func serverHandleUsernamePassword
 //@   requires len(b) >= 258
+//@   requires forall k string :: has(userInfoByUsername, k) ==> userInfoByUsername[k].Username == k
+//@   callsite ReadFull: ok == has(userInfoByUsername, string(b[2:2 + int(b[1])])) && (ok ==> userInfo == userInfoByUsername[string(b[2:2 + int(b[1])])]) && plen == int(b[2 + int(b[1])])
+//@   callsite Write: arg0[0] == 1 && len(arg0) == 2 && (arg0[1] == 0 <==> (ok && string(passwd) == userInfo.Password))
+//@   ensures isnil(result1) ==> ok && string(passwd) == userInfo.Password && result0 == userInfo.Username
 
+// The authentication message a client sends: VER 1, ULEN, UNAME, PLEN, PASSWD.
 //@ func (UserInfo).AppendAuthMsg
 //@   requires len(u.Username) <= 255 && len(u.Password) <= 255
+//@   ensures len(result) == len(b) + 3 + len(u.Username) + len(u.Password)
+//@   ensures result[len(b)] == 1 && int(result[len(b) + 1]) == len(u.Username) && int(result[len(b) + 2 + len(u.Username)]) == len(u.Password)
+//@   ensures forall i int :: 0 <= i && i < len(u.Username) ==> result[len(b) + 2 + i] == u.Username[i]
+//@   ensures forall i int :: 0 <= i && i < len(u.Password) ==> result[len(b) + 3 + len(u.Username) + i] == u.Password[i]
+
+// The format determines the address: two addresses encoded by the same bytes agree (C07, together with the
+// writer's and the parser's contracts above: parse(write(a)) is a, for domains up to their characters).
+//@ lemma socksDomainInjective(b []byte, d1 string, p1 uint16, d2 string, p2 uint16)
+//@   requires domainEnc(b, d1, p1) && domainEnc(b, d2, p2)
+//@   ensures len(d1) == len(d2) && p1 == p2
+//@   ensures forall i int :: 0 <= i && i < len(d1) ==> d1[i] == d2[i]
+
+//@ lemma socksIP4Injective(b []byte, ip1 netip.Addr, p1 uint16, ip2 netip.Addr, p2 uint16)
+//@   requires ip4Enc(b, ip1, p1) && ip4Enc(b, ip2, p2)
+//@   ensures p1 == p2 && ip1.As4()[0] == ip2.As4()[0] && ip1.As4()[1] == ip2.As4()[1] && ip1.As4()[2] == ip2.As4()[2] && ip1.As4()[3] == ip2.As4()[3]
+
+//@ lemma socksIP6Injective(b []byte, ip1 netip.Addr, p1 uint16, ip2 netip.Addr, p2 uint16)
+//@   requires ip6Enc(b, ip1, p1) && ip6Enc(b, ip2, p2)
+//@   ensures p1 == p2
+//@   ensures forall i int :: 0 <= i && i < 16 ==> ip1.As16()[i] == ip2.As16()[i]
+
+//@ lemma socksKindsDisjoint(b []byte, d string, ip netip.Addr, p1 uint16, p2 uint16)
+//@   requires len(b) >= 1
+//@   ensures !(domainEnc(b, d, p1) && ip4Enc(b, ip, p2)) && !(domainEnc(b, d, p1) && ip6Enc(b, ip, p2)) && !(ip4Enc(b, ip, p1) && ip6Enc(b, ip, p2))
+
+// Reply codes (RFC 1928 section 6) for the outcome of the onward connection.
+//@ func ReplyFromDialResultCode
+//@   modifies nothing
+//@   ensures code == conn.DialResultCodeSuccess ==> result == 0
+//@   ensures code == conn.DialResultCodeEACCES ==> result == 2
+//@   ensures (code == conn.DialResultCodeENETDOWN || code == conn.DialResultCodeENETUNREACH || code == conn.DialResultCodeENETRESET) ==> result == 3
+//@   ensures (code == conn.DialResultCodeEHOSTDOWN || code == conn.DialResultCodeEHOSTUNREACH) ==> result == 4
+//@   ensures code == conn.DialResultCodeECONNREFUSED ==> result == 5
+//@   ensures result != 0 <==> code != conn.DialResultCodeSuccess
+//@   ensures result <= 5
